@@ -431,6 +431,12 @@ def resolveall_random(rng, count, lattice_frac=0.5):
             if rev:
                 Q = mirror(Q)
             peaks = ladder(rng, off)
+            if rng.random() < 0.3:
+                # the same geometry far down a chromosome (coordinates of 10^8): nothing in the resolver may depend on the
+                # magnitude of the coordinates, only on their order and differences
+                base = rng.randrange(100, 250) * 1000000 + rng.randrange(0, 1000)
+                R = [p + base for p in R]
+                peaks = [p + base for p in peaks]
             segs = _real_segments(P, R, Q, rev, peaks, R[-1] + 1000)
         else:
             nr = rng.randrange(4, 11)
